@@ -136,6 +136,59 @@ def _empty_dict() -> HDict:
     return d
 
 
+def attr_line(I, pp, type_name: str, key: str, value: Any):
+    """(kind, line | exception) of the one line PrettyPrinter._format writes for ``key`` in an
+    otherwise empty object of ``type_name`` (printer made with indent=0: no leading whitespace).
+    Entered through _format - the method pprint() itself calls - so that the private writers may
+    change their signatures freely."""
+    d = HDict()
+    d.pytype = "ordereddict.CaseInsensitiveOrderedDict"  # type: ignore[misc]
+    d.ci = True
+    d.factory = None
+    d["__type__"] = type_name
+    d[key] = value
+    outs = I.explore("pprint.PrettyPrinter._format", lambda: (pp() if callable(pp) else pp, [d, 0], {}))
+    if len(outs) != 1:
+        raise AnalysisError(f"_format forks for {type_name}.{key}: {[o.assumptions for o in outs]}")
+    o = outs[0]
+    if o.kind == "raise":
+        return "raise", o.exc
+    lines = list(o.value)
+    if len(lines) != 3:
+        return "malformed", SStr([" / ".join(pai.as_sstr(x).describe() for x in lines)])
+    return "line", pai.as_sstr(lines[1])
+
+
+def block_lines(I, pp, type_name: str, items: list) -> list:
+    """Lines PrettyPrinter._format writes between the opener and the END of an object of
+    ``type_name`` holding ``items`` (printer made with indent=0)."""
+    d = HDict()
+    d.pytype = "ordereddict.CaseInsensitiveOrderedDict"  # type: ignore[misc]
+    d.ci = True
+    d.factory = None
+    d["__type__"] = type_name
+    for k, v in items:
+        d[k] = v
+    outs = I.explore("pprint.PrettyPrinter._format", lambda: (pp() if callable(pp) else pp, [d, 0], {}))
+    if len(outs) != 1 or outs[0].kind != "return":
+        raise AnalysisError(f"_format not evaluable on a {type_name} holding {[k for k, _ in items]}: {[(o.kind, o.exc) for o in outs]}")
+    lines = list(outs[0].value)
+    if len(lines) < 2 or pai.as_sstr(lines[0]) != SStr([type_name.upper()]) or pai.as_sstr(lines[-1]) != SStr(["END"]):
+        raise AnalysisError(f"_format output for {type_name} does not have the opener ... END shape: {lines!r}")
+    return lines[1:-1]
+
+
+def kv_dict(type_name: str, items: list) -> HDict:
+    d = HDict()
+    d.pytype = "ordereddict.CaseInsensitiveOrderedDict"  # type: ignore[misc]
+    d.ci = True
+    d.factory = None
+    d["__type__"] = type_name
+    for k, v in items:
+        d[k] = v
+    return d
+
+
 class PrinterModel:
     def __init__(self, env: models.Env):
         self.env = env
@@ -146,18 +199,10 @@ class PrinterModel:
     def value_template(self, type_name: str, key: str, vc: VClass, q: str):
         """(kind, template) of process_attribute's value part: template is what follows 'KEY '."""
 
-        def make():
-            pp = models.printer(self.I, quote=q, indent=0)
-            return pp, [type_name, key, vc.make(q), 0, 0], {}
-
-        outs = self.I.explore("pprint.PrettyPrinter.process_attribute", make)
+        kind, line = attr_line(self.I, lambda: models.printer(self.I, quote=q, indent=0), type_name, key, vc.make(q))
         self.evals += 1
-        if len(outs) != 1:
-            raise AnalysisError(f"process_attribute forks for {type_name}.{key} {vc.name}: {[o.assumptions for o in outs]}")
-        o = outs[0]
-        if o.kind == "raise":
-            return "raise", o.exc
-        line = pai.as_sstr(o.value)
+        if kind != "line":
+            return kind, line
         prefix = key.upper() + " "
         if not line.startswith(prefix):
             return "malformed", line
